@@ -903,6 +903,14 @@ class Pass2(CompilePass):
                     'Input can only have builtin types',
                     node=lvalue)
 
+    def process_read_pre(self, node):
+        for lvalue in node.var_list:
+            if not lvalue.type.is_builtin:
+                raise CompileError(
+                    EC.TYPE_MISMATCH,
+                    'READ can only have builtin types',
+                    node=lvalue)
+
     def process_view_print_pre(self, node):
         if node.top_expr and not node.top_expr.type.is_numeric:
             raise CompileError(
